@@ -1,0 +1,38 @@
+//go:build verif
+
+package main
+
+import (
+	"fmt"
+	"mltwist/internal/consoleui/verifhook"
+)
+
+// Numeric user input (property C30). Strings travel hex-encoded ("-" = empty)
+// so that spaces and arbitrary bytes survive the line protocol.
+//
+//	parseaddr <hex of the argument>   =>  ok <n> | err | PANIC
+//	readvalue <w> <hex of the line>   =>  ok c:<hex> | err | PANIC
+//
+// parseaddr runs the argument parser of the memory view's "address" command.
+// readvalue makes the line (followed by "\n") the console input and calls the
+// emulator's readValue(w).
+func init() {
+	register("parseaddr", func(t *tokens) string {
+		s := string(t.hex())
+		v, err := verifhook.C30ParseAddr(s)
+		if err != nil {
+			return "err"
+		}
+		return fmt.Sprintf("ok %d", v)
+	})
+
+	register("readvalue", func(t *tokens) string {
+		w := t.width()
+		line := string(t.hex())
+		c, err := verifhook.C30ReadValue(w, line)
+		if err != nil {
+			return "err"
+		}
+		return "ok " + fmtExpr(c)
+	})
+}
